@@ -1,3 +1,441 @@
-import Gossamer.Model.C28
+/-
+C28  The Wasm heap allocator never hands out overlapping memory.
+
+Property (properties.jsonl): for every sequence of allocations and frees, each returned pointer is
+8-byte aligned, lies above the heap base with its whole rounded-up block inside linear memory, and
+never overlaps another live allocation.  Bytes written to a live allocation are unaffected by other
+allocations and frees.  Freeing an invalid or already-freed pointer fails and poisons the allocator,
+requests above 32 MiB fail, and memory never grows past 4 GiB.
+
+All theorems are about the model `Gossamer/Model/C28.lean` (mirror of
+lib/runtime/allocator/freeing_bump.go, after the `fix:` commit that stops the 32-bit bumper from
+wrapping), for every byte store that obeys `Store.Lawful` -- in particular the hash-map store the
+compiled driver runs (`hashStore_lawful`).
+
+The guest is modelled by `Op` (alloc / free / store a word / memory.grow); `OpOk` says what a
+well-behaved guest does.  Its `free` clause is the exact guard of the design's inherent limitation
+(same in Substrate): a pointer the guest does not hold may be freed only if the 8 bytes in front of
+it are NOT a well-formed occupied header -- a forged header is accepted by the code
+(`C28_bad_free_forged_counterexample`).
+-/
+import Gossamer.Lib.C28Step
+import Gossamer.Lib.C28Hash
 namespace Gossamer.C28
+variable {S : Store}
+
+/-! ## the invariant holds in every reachable state -/
+
+/-- every operation of the history is permitted in the state in which it is issued -/
+def OpsOk (r : Run S) : List Op → Prop
+  | [] => True
+  | op :: ops => OpOk r op ∧ OpsOk (r.step op).1 ops
+
+theorem C28_inv_init (heapBase pages maxPages : Nat) :
+    Inv (Run.init S heapBase pages maxPages) { blocks := [], fl := fun _ => [] } := by
+  constructor
+  · refine ⟨?_, ?_, Nat.le_refl _, ?_, ?_, ?_, ?_, List.Pairwise.nil⟩
+    · show 8 * (((heapBase + HDR - 1) % U32) / 8) % 8 = 0
+      exact Nat.mul_mod_right 8 _
+    · show 8 * (((heapBase + HDR - 1) % U32) / 8) % 8 = 0
+      exact Nat.mul_mod_right 8 _
+    · show 8 * (((heapBase + HDR - 1) % U32) / 8) < U32
+      have := Nat.mod_lt (heapBase + HDR - 1) (show 0 < U32 by decide)
+      omega
+    · intro b hb; cases hb
+    · intro b hb; cases hb
+    · intro e he; cases he
+  · intro _
+    refine ⟨?_, ?_, ?_, ?_, ?_⟩
+    · intro e he; cases he
+    · intro o _; rfl
+    · intro o _ h hh; cases hh
+    · intro o _; exact List.nodup_nil
+    · intro p hp; cases hp
+
+/-- one permitted operation preserves the invariant (Allocate, Deallocate, guest stores, growth) -/
+theorem C28_inv_preserved (hS : S.Lawful) (r : Run S) (g : Ghost) (hI : Inv r g) (op : Op)
+    (hok : OpOk r op) : ∃ g', Inv (r.step op).1 g' := inv_step hS hI op hok
+
+theorem inv_exec (hS : S.Lawful) (ops : List Op) : ∀ (r : Run S), (∃ g, Inv r g) → OpsOk r ops →
+    ∃ g, Inv (r.exec ops) g := by
+  induction ops with
+  | nil => intro r h _; exact h
+  | cons op ops ih =>
+    intro r ⟨g, hI⟩ hok
+    exact ih _ (inv_step hS hI op hok.1) hok.2
+
+/-- the invariant holds after every history of a well-behaved guest, from every heap base and
+    every initial / maximal memory size -/
+theorem C28_inv_reachable (hS : S.Lawful) (heapBase pages maxPages : Nat) (ops : List Op)
+    (hok : OpsOk (Run.init S heapBase pages maxPages) ops) :
+    ∃ g, Inv ((Run.init S heapBase pages maxPages).exec ops) g :=
+  inv_exec hS ops _ ⟨_, C28_inv_init heapBase pages maxPages⟩ hok
+
+/-! ## what the invariant says about the guest's live allocations -/
+
+/-- a live allocation `(ptr, order)` is well placed -/
+def LiveOk (r : Run S) (e : Nat × Nat) : Prop :=
+  e.1 % 8 = 0 ∧ r.s.base + 8 ≤ e.1 ∧ e.1 + osize e.2 ≤ r.m.size ∧ e.1 + osize e.2 ≤ r.s.bumper
+
+/-- two allocations, headers included, do not overlap -/
+def NoOverlap (a b : Nat × Nat) : Prop :=
+  a.1 + osize a.2 + 8 ≤ b.1 ∨ b.1 + osize b.2 + 8 ≤ a.1
+
+theorem live_ok_of_inv {r : Run S} {g : Ghost} (hI : Inv r g) :
+    (∀ e ∈ r.live, LiveOk r e) ∧ r.live.Pairwise NoOverlap := by
+  obtain ⟨hG, _⟩ := hI
+  constructor
+  · intro e he
+    obtain ⟨e8, eb⟩ := hG.live_blk e he
+    obtain ⟨a1, a2, a3, _, a5⟩ := hG.blk _ eb
+    unfold bend at a3 a5
+    simp only at a1 a2 a3 a5
+    exact ⟨by omega, by omega, by omega, by omega⟩
+  · refine List.Pairwise.imp_of_mem ?_ hG.live_nodup
+    intro a b ha hb hne
+    obtain ⟨a8, ab⟩ := hG.live_blk a ha
+    obtain ⟨b8, bb⟩ := hG.live_blk b hb
+    have hd := blk_sep hG ab bb (by simp only; omega)
+    unfold Disj bend at hd
+    simp only at hd
+    unfold NoOverlap
+    omega
+
+/-- **No overlap, for all histories.**  After any history of a well-behaved guest, from any heap
+    base: every live allocation is 8-aligned, starts above the (aligned) heap base, has its whole
+    rounded-up block inside the linear memory and below the bumper, and no two live allocations
+    (headers included) overlap. -/
+theorem C28_no_overlap (hS : S.Lawful) (heapBase pages maxPages : Nat) (ops : List Op)
+    (hok : OpsOk (Run.init S heapBase pages maxPages) ops) :
+    let r := (Run.init S heapBase pages maxPages).exec ops
+    (∀ e ∈ r.live, LiveOk r e) ∧ r.live.Pairwise NoOverlap := by
+  obtain ⟨g, hI⟩ := C28_inv_reachable hS heapBase pages maxPages ops hok
+  exact live_ok_of_inv hI
+
+/-! ## the result of one Allocate -/
+
+theorem step_alloc_ptr {r : Run S} {n p : Nat} (h : (r.step (.alloc n)).2 = .ptr p) :
+    ∃ s' m', allocate r.s r.m n = (s', m', .ok p) := by
+  rcases hr : allocate r.s r.m n with ⟨s', m', e | q⟩
+  · simp only [Run.step, hr] at h; cases h
+  · simp only [Run.step, hr] at h
+    injection h with h
+    subst h
+    exact ⟨s', m', rfl⟩
+
+theorem allocate_ok_order {s s' : St} {m m' : Mem S} {n p : Nat} (h : allocate s m n = (s', m', .ok p)) :
+    ∃ o, orderFromSize n = some o := by
+  by_cases hp : s.poisoned = true
+  · unfold allocate at h; rw [if_pos hp] at h; cases h
+  · have hp : s.poisoned = false := by
+      cases hq : s.poisoned with
+      | true => exact absurd hq hp
+      | false => rfl
+    rcases allocate_cases s m n hp with ⟨_, _, heq, _⟩ | ⟨_, o, _, _, ho, _⟩ | ⟨_, _, o, _, ho, _⟩
+    · rw [heq] at h; cases h
+    · exact ⟨o, ho⟩
+    · exact ⟨o, ho⟩
+
+/-- **Result of Allocate**, in any reachable state: a returned pointer `p` is 8-aligned,
+    `p - 8 ≥ heap base`, the block of `8 << order` bytes holds the request, lies inside the (possibly
+    grown) memory, and is disjoint (headers included) from every allocation that was live before. -/
+theorem C28_alloc_result (hS : S.Lawful) (r : Run S) (g : Ghost) (hI : Inv r g) (n p : Nat)
+    (h : (r.step (.alloc n)).2 = .ptr p) :
+    ∃ o, orderFromSize n = some o ∧ n ≤ osize o ∧ o < 23 ∧
+      p % 8 = 0 ∧ r.s.base + 8 ≤ p ∧ p + osize o ≤ (r.step (.alloc n)).1.m.size ∧
+      ∀ e ∈ r.live, NoOverlap (p, o) e := by
+  obtain ⟨s', m', heq⟩ := step_alloc_ptr h
+  obtain ⟨o, ho⟩ := allocate_ok_order heq
+  obtain ⟨_, ho23, hn, _⟩ := orderFromSize_spec n o ho
+  obtain ⟨g', hI'⟩ := inv_alloc hS hI n
+  have hlive : (r.step (.alloc n)).1.live = (p, o) :: r.live := by
+    rw [step_alloc_ok heq, ho]; rfl
+  have hbase : (r.step (.alloc n)).1.s.base = r.s.base := by
+    obtain ⟨hG', _⟩ := hI'
+    by_cases hp : r.s.poisoned = true
+    · unfold allocate at heq; rw [if_pos hp] at heq; cases heq
+    · have hp : r.s.poisoned = false := by
+        cases hq : r.s.poisoned with
+        | true => exact absurd hq hp
+        | false => rfl
+      rw [step_alloc_ok heq]
+      rcases allocate_cases r.s r.m n hp with ⟨_, _, h1, _⟩ | ⟨_, _, _, h1, _, _, _, _, _, hb, _⟩ |
+        ⟨_, _, _, h1, _, _, _, _, _, _, _, _, hb, _⟩
+      · rw [h1] at heq; cases heq
+      · rw [h1] at heq; injection heq with e1 _; rw [← e1]; exact hb
+      · rw [h1] at heq; injection heq with e1 _; rw [← e1]; exact hb
+  obtain ⟨hall, hpw⟩ := live_ok_of_inv hI'
+  rw [hlive] at hall hpw
+  obtain ⟨a1, a2, a3, _⟩ := hall (p, o) (List.mem_cons_self ..)
+  rw [List.pairwise_cons] at hpw
+  rw [hbase] at a2
+  exact ⟨o, ho, hn, ho23, a1, a2, a3, hpw.1⟩
+
+/-! ## frame: Allocate and Deallocate never write into a live allocation -/
+
+/-- **Frame.**  In a reachable state, an `alloc` or a permitted `free` leaves every byte of every
+    live allocation (the whole rounded-up block) unchanged. -/
+theorem C28_frame (hS : S.Lawful) (r : Run S) (g : Ghost) (hI : Inv r g) (op : Op)
+    (hop : (∃ n, op = .alloc n) ∨ (∃ p, op = .free p)) (hok : OpOk r op) :
+    ∀ e ∈ r.live, ∀ a, e.1 ≤ a → a < e.1 + osize e.2 →
+      byteAt (r.step op).1.m.bytes a = byteAt r.m.bytes a := by
+  obtain ⟨hG, hH⟩ := hI
+  intro e he a ha1 ha2
+  obtain ⟨e8, eb⟩ := hG.live_blk e he
+  obtain ⟨_, _, eb3, _, _⟩ := hG.blk _ eb
+  unfold bend at eb3
+  simp only at eb3
+  rcases hop with ⟨n, rfl⟩ | ⟨p, rfl⟩
+  · by_cases hp : r.s.poisoned = true
+    · have : allocate r.s r.m n = (r.s, r.m, .error .poisoned) := by
+        unfold allocate; rw [if_pos hp]
+      rw [step_alloc_err this]
+    have hp : r.s.poisoned = false := by
+      cases hq : r.s.poisoned with
+      | true => exact absurd hq hp
+      | false => rfl
+    have hH := hH hp
+    rcases allocate_cases r.s r.m n hp with ⟨s', e', heq, _⟩ |
+      ⟨s', o, next, heq, ho, hne, hfit, hrd, _⟩ | ⟨s', m', o, heq, ho, _⟩
+    · rw [step_alloc_err heq]
+    · rw [step_alloc_ok heq]
+      obtain ⟨_, ho23, _, _⟩ := orderFromSize_spec n o ho
+      obtain ⟨rest, hfl, _, _⟩ := Chain_cons_of_ne_nil (hH.chain o ho23) hne
+      obtain ⟨hlb, hlive⟩ := hH.fl_blk o ho23 (r.s.heads o) (by rw [hfl]; exact List.mem_cons_self ..)
+      have hd := blk_sep hG eb hlb (by have := hlive e he; simp only; omega)
+      unfold Disj bend at hd
+      simp only at hd
+      show byteAt (put64 r.m.bytes (r.s.heads o) (OCC + o)) a = byteAt r.m.bytes a
+      exact byteAt_put64_other hS _ _ _ _ (by omega)
+    · rw [step_alloc_ok heq]
+      show byteAt (put64 r.m.bytes r.s.bumper (OCC + o)) a = byteAt r.m.bytes a
+      exact byteAt_put64_other hS _ _ _ _ (by omega)
+  · by_cases hp : r.s.poisoned = true
+    · have : deallocate r.s r.m p = (r.s, r.m, .error .poisoned) := by
+        unfold deallocate; rw [if_pos hp]
+      rw [step_free_err this]
+    have hp : r.s.poisoned = false := by
+      cases hq : r.s.poisoned with
+      | true => exact absurd hq hp
+      | false => rfl
+    rcases deallocate_cases r.s r.m p hp with ⟨s', e', heq, _⟩ | ⟨s', o, res, heq, hocc, _, _, _, _, hres⟩
+    · rw [step_free_err heq]
+    · have ⟨o', hlive⟩ : ∃ o, (p, o) ∈ r.live := by
+        rcases hok with h | hno
+        · exact h
+        · exact absurd hocc hno
+      obtain ⟨p8, pb⟩ := hG.live_blk _ hlive
+      simp only at p8 pb
+      have hsep : a < p - 8 ∨ p - 8 + 8 ≤ a := by
+        by_cases hpe : e.1 = p
+        · omega
+        · have hd := blk_sep hG eb pb (by simp only; omega)
+          unfold Disj bend at hd
+          simp only at hd
+          have := osize_pos o'
+          omega
+      have key : byteAt (put64 r.m.bytes (p - 8) (r.s.heads o)) a = byteAt r.m.bytes a :=
+        byteAt_put64_other hS _ _ _ _ hsep
+      rcases hres with ⟨hr, _⟩ | ⟨hr, _⟩
+      · rw [hr] at heq; rw [step_free_ok heq]; exact key
+      · rw [hr] at heq; rw [step_free_err heq]; exact key
+
+/-! ## invalid frees -/
+
+/-- **Bad free (exact guard).**  In ANY state of a non-poisoned allocator: if the 8 bytes in front of
+    `p` are not a well-formed occupied header (`p < 8`, outside the memory, occupied bit clear, or
+    order ≥ 23), `Deallocate(p)` fails, writes nothing and poisons the allocator. -/
+theorem C28_bad_free (s : St) (m : Mem S) (p : Nat) (hp : s.poisoned = false) (hno : ¬ OccAt m p) :
+    ∃ s' e, deallocate s m p = (s', m, .error e) ∧ s'.poisoned = true := by
+  rcases deallocate_cases s m p hp with ⟨s', e, heq, hpo, _⟩ | ⟨_, _, _, _, hocc, _⟩
+  · exact ⟨s', e, heq, hpo⟩
+  · exact absurd hocc hno
+
+/-- a header that sits on a free list is not a well-formed occupied header -/
+theorem not_occ_of_lt (m : Mem S) (p : Nat) (h : le64 m.bytes (p - 8) < U32) : ¬ OccAt m p := by
+  intro hocc
+  have := hocc.2.2.1
+  rw [Nat.div_eq_of_lt h] at this
+  cases this
+
+/-- **Double free.**  In a reachable, non-poisoned state every pointer that was freed and not handed
+    out again since is rejected by `Deallocate`: error, nothing written, allocator poisoned. -/
+theorem C28_double_free (r : Run S) (g : Ghost) (hI : Inv r g) (hp : r.s.poisoned = false)
+    (p : Nat) (hf : p ∈ r.freed) :
+    ∃ s' e, deallocate r.s r.m p = (s', r.m, .error e) ∧ s'.poisoned = true := by
+  have hH := hI.2 hp
+  obtain ⟨_, o, ho, hm⟩ := hH.freed p hf
+  exact C28_bad_free r.s r.m p hp (not_occ_of_lt r.m p (Chain_mem_free (hH.chain o ho) _ hm))
+
+/-- `freed` really is "freed and not handed out again": after a successful `free p` the pointer is
+    on it (so the next `free p` fails, by `C28_double_free` and `C28_inv_preserved`) -/
+theorem C28_freed_after_free (r : Run S) (p : Nat) (h : (r.step (.free p)).2 = .ok) :
+    p ∈ (r.step (.free p)).1.freed := by
+  rcases hr : deallocate r.s r.m p with ⟨s', m', e | u⟩
+  · simp only [Run.step, hr] at h; cases h
+  · simp only [Run.step, hr]; exact List.mem_cons_self ..
+
+/-- **Poison is sticky**: a poisoned allocator refuses every call and changes nothing. -/
+theorem C28_poisoned_sticky (s : St) (m : Mem S) (x : Nat) (hp : s.poisoned = true) :
+    allocate s m x = (s, m, .error .poisoned) ∧ deallocate s m x = (s, m, .error .poisoned) := by
+  constructor
+  · unfold allocate; rw [if_pos hp]
+  · unfold deallocate; rw [if_pos hp]
+
+/-- **Every error poisons**: whenever `Allocate` or `Deallocate` returns an error the allocator is
+    poisoned afterwards. -/
+theorem C28_error_poisons (s s' : St) (m m' : Mem S) (x : Nat) (e : Err) :
+    (allocate s m x = (s', m', .error e) → s'.poisoned = true) ∧
+    (deallocate s m x = (s', m', .error e) → s'.poisoned = true) := by
+  constructor
+  · intro h
+    unfold allocate at h
+    split at h
+    · rename_i hp; injection h with h1 _; rw [← h1]; exact hp
+    · unfold poisonOnErr at h
+      split at h
+      · injection h with h1 _; rw [← h1]
+      · injection h with _ h2; injection h2 with _ h3; cases h3
+  · intro h
+    unfold deallocate at h
+    split at h
+    · rename_i hp; injection h with h1 _; rw [← h1]; exact hp
+    · unfold poisonOnErr at h
+      split at h
+      · injection h with h1 _; rw [← h1]
+      · injection h with _ h2; injection h2 with _ h3; cases h3
+
+/-! ## limits -/
+
+/-- **Too large**: a request above 32 MiB always fails (and nothing is written). -/
+theorem C28_too_large (s : St) (m : Mem S) (n : Nat) (h : MAX_ALLOC < n) :
+    ∃ s' e, allocate s m n = (s', m, .error e) ∧ s'.poisoned = true := by
+  by_cases hp : s.poisoned = true
+  · exact ⟨s, .poisoned, (C28_poisoned_sticky s m n hp).1, hp⟩
+  · have hp : s.poisoned = false := by
+      cases hq : s.poisoned with
+      | true => exact absurd hq hp
+      | false => rfl
+    rcases allocate_cases s m n hp with ⟨s', e, heq, hpo, _⟩ | ⟨_, o, _, _, ho, _⟩ | ⟨_, _, o, _, ho, _⟩
+    · exact ⟨s', e, heq, hpo⟩
+    · have := (orderFromSize_spec n o ho).1; omega
+    · have := (orderFromSize_spec n o ho).1; omega
+
+/-- ... and exactly the requests up to 32 MiB get an order -/
+theorem C28_order_spec (n : Nat) :
+    (MAX_ALLOC < n → orderFromSize n = none) ∧
+    (∀ o, orderFromSize n = some o → n ≤ MAX_ALLOC ∧ o < 23 ∧ n ≤ osize o ∧ (o = 0 ∨ osize o < 2 * n)) :=
+  ⟨(orderFromSize_none n).mpr, orderFromSize_spec n⟩
+
+/-- **Memory limit**: whatever the environment would allow (`maxPages`), `Allocate` never grows a
+    memory of at most 65536 pages (4 GiB) beyond 65536 pages; `Deallocate` never grows it. -/
+theorem C28_max_memory (s : St) (m : Mem S) (x : Nat) (h : m.pages ≤ MAX_PAGES) :
+    (allocate s m x).2.1.pages ≤ MAX_PAGES ∧ (deallocate s m x).2.1.pages = m.pages := by
+  constructor
+  · by_cases hp : s.poisoned = true
+    · rw [(C28_poisoned_sticky s m x hp).1]; exact h
+    · have hp : s.poisoned = false := by
+        cases hq : s.poisoned with
+        | true => exact absurd hq hp
+        | false => rfl
+      rcases allocate_cases s m x hp with ⟨_, _, heq, _⟩ | ⟨_, _, _, heq, _⟩ |
+        ⟨_, m', _, heq, _, _, _, _, _, _, hm', _⟩
+      · rw [heq]; exact h
+      · rw [heq]; exact h
+      · rw [heq]
+        rcases hm' with e | e
+        · rw [e]; exact h
+        · exact e
+  · by_cases hp : s.poisoned = true
+    · rw [(C28_poisoned_sticky s m x hp).2]
+    · have hp : s.poisoned = false := by
+        cases hq : s.poisoned with
+        | true => exact absurd hq hp
+        | false => rfl
+      rcases deallocate_cases s m x hp with ⟨_, _, heq, _⟩ | ⟨_, _, _, heq, _⟩
+      · rw [heq]
+      · rw [heq]
+
+/-- for whole histories without guest-initiated growth: the memory never exceeds 4 GiB -/
+theorem C28_max_memory_run (ops : List Op) : ∀ (r : Run S), r.m.pages ≤ MAX_PAGES →
+    (∀ op ∈ ops, ∀ d, op ≠ .grow d) → (r.exec ops).m.pages ≤ MAX_PAGES := by
+  induction ops with
+  | nil => intro r h _; exact h
+  | cons op ops ih =>
+    intro r h hng
+    have key : (r.step op).1.m.pages ≤ MAX_PAGES := by
+      cases op with
+      | alloc n =>
+        have := (C28_max_memory r.s r.m n h).1
+        rcases hr : allocate r.s r.m n with ⟨s', m', e | q⟩
+        · rw [hr] at this; rw [step_alloc_err hr]; exact this
+        · rw [hr] at this; rw [step_alloc_ok hr]; exact this
+      | free p =>
+        have := (C28_max_memory r.s r.m p h).2
+        rcases hr : deallocate r.s r.m p with ⟨s', m', e | q⟩
+        · rw [hr] at this; rw [step_free_err hr]; show m'.pages ≤ MAX_PAGES; simp only at this; omega
+        · rw [hr] at this; rw [step_free_ok hr]; show m'.pages ≤ MAX_PAGES; simp only at this; omega
+      | poke a v =>
+        rw [step_poke]; split
+        · exact h
+        · exact h
+      | grow d => exact absurd rfl (hng _ (List.mem_cons_self ..) d)
+    exact ih _ key (fun op' h' => hng op' (List.mem_cons_of_mem _ h'))
+
+/-! ## the heap base -/
+
+/-- Full statement wanted: the aligned base used by the allocator is never below the heap base it
+    was given (`heapBase ≤ (newAlloc heapBase).base` for every 32-bit `heapBase`).  Proved for
+    `heapBase + 7 < 2^32`; the seven values above wrap (known finding `heapbase-wrap`). -/
+theorem C28_heap_base_partial (heapBase : Nat) (h : heapBase + 7 < U32) :
+    heapBase ≤ (newAlloc heapBase).base ∧ (newAlloc heapBase).base < heapBase + 8 := by
+  show heapBase ≤ 8 * (((heapBase + HDR - 1) % U32) / 8) ∧ 8 * (((heapBase + HDR - 1) % U32) / 8) < heapBase + 8
+  have : (heapBase + HDR - 1) % U32 = heapBase + 7 := Nat.mod_eq_of_lt (by c28_omega)
+  rw [this]
+  omega
+
+theorem C28_heap_base_counterexample :
+    (4294967295 : Nat) < U32 ∧ ¬ (4294967295 ≤ (newAlloc 4294967295).base) := by decide
+
+/-! ## the inherent limitation, and that the hypotheses are satisfiable -/
+
+/-- a history of a well-behaved guest (on the function store); the second `free 24` is a double free,
+    which `OpOk` permits because the header in front of 24 is then a free header: it fails and poisons -/
+def exOps : List Op := [.alloc 100, .alloc 8, .poke 32 7, .free 24, .alloc 65, .free 24, .free 24, .grow 1]
+
+example : (((Run.init funStore 13 1 16).exec [.alloc 100, .alloc 8]).live) = [(160, 0), (24, 4)] := by
+  decide
+
+/-- the hypotheses of the history theorems are satisfiable -/
+theorem C28_opsok_example : OpsOk (Run.init funStore 13 1 16) exOps := by
+  refine ⟨trivial, trivial, ?_, ?_, trivial, ?_, ?_, trivial, trivial⟩
+  · exact Or.inr (Or.inr ⟨(24, 4), by decide, by decide, by decide⟩)
+  · exact Or.inl ⟨4, by decide⟩
+  · exact Or.inl ⟨4, by decide⟩
+  · refine Or.inr ?_
+    intro h
+    have := h.2.2.1
+    revert this
+    decide
+
+/-- ... and the double free of `exOps` is rejected: the run ends poisoned, the other allocation is
+    still live -/
+example : ((Run.init funStore 13 1 16).exec exOps).s.poisoned = true ∧
+    ((Run.init funStore 13 1 16).exec exOps).live = [(160, 0)] := by decide
+
+/-- the guest forges an occupied header inside a block it holds and frees the address behind it -/
+def forgedRun : Run funStore :=
+  (Run.init funStore 0 1 1).exec [.alloc 32, .poke 16 OCC, .free 24, .alloc 8]
+
+/-- **The inherent limitation** (same in Substrate): the pointer 24 was never returned by `Allocate`,
+    yet `Deallocate` accepts it because the guest wrote a well-formed occupied header in front of it,
+    and the next allocation of that order is handed out INSIDE the live allocation at 8.  This is why
+    `OpOk` demands that a pointer the guest does not hold has no well-formed occupied header in front
+    of it: that hypothesis of `C28_no_overlap` cannot be dropped. -/
+theorem C28_bad_free_forged_counterexample :
+    forgedRun.s.poisoned = false ∧ forgedRun.live = [(24, 0), (8, 2)] ∧ ¬ NoOverlap (24, 0) (8, 2) := by
+  refine ⟨by decide, by decide, ?_⟩
+  unfold NoOverlap
+  decide
+
 end Gossamer.C28
